@@ -13,8 +13,12 @@ def sh(cmd, cwd=None):
 rc, out = sh("git ls-files --others --exclude-standard", cwd=src)
 demos = [f for f in out.split() if f.endswith("_test.go")]
 if not demos: sys.exit("no demo test file found")
-rc, patch = sh("git diff", cwd=src)
+if os.path.exists(f"{src}/patch.diff") and open(f"{src}/patch.diff").read().strip():
+    patch = open(f"{src}/patch.diff").read()   # the agent's own library-only diff
+else:
+    rc, patch = sh("git diff", cwd=src)
 if not patch.strip(): sys.exit("no library change in the worktree")
+if "_test.go" in "".join(l for l in patch.splitlines() if l.startswith("+++ ")): sys.exit("patch touches test files")
 wt = tempfile.mkdtemp(prefix="vseed-", dir="/tmp")
 os.rmdir(wt)
 sh(f"git -C /repo worktree add --detach {wt} HEAD")
